@@ -50,3 +50,34 @@ func VerifC17WS() {
 		verifapi.Assert(seen[string(id)] == 1, "c17.ws-each-message-read-exactly-once")
 	}
 }
+
+// VerifC17WSHeld: messages read from the websocket codec stay what they were
+// when later messages are read (a reader such as Remote.Serve hands each
+// message to its own goroutine and goes on reading): k messages are written,
+// all are read and kept, then every one is compared with what was sent.
+func VerifC17WSHeld() {
+	conn := verifConn()
+	codec := &wsCodec{conn: conn}
+	n := verifapi.Param("msgs", 3)
+	for i := 0; i < n; i++ {
+		id, _ := json.Marshal(100 + i)
+		if err := codec.WriteMessage(&jsonrpc2.Message{ID: id, Version: jsonrpc2.Version, Request: &jsonrpc2.Request{Method: fmt.Sprint("m", i)}}); err != nil {
+			verifapi.Unreachable("c17.ws-write-ok")
+		}
+	}
+	var held []*jsonrpc2.Message
+	for i := 0; i < n; i++ {
+		m, err := codec.ReadMessage()
+		verifapi.Assert(err == nil && m != nil, "c17.ws-every-written-message-is-read")
+		if err != nil || m == nil {
+			return
+		}
+		held = append(held, m)
+	}
+	verifapi.Reach("c17.ws.held")
+	for i, m := range held {
+		want, _ := json.Marshal(100 + i)
+		verifapi.Assert(string(m.ID) == string(want), "c17.ws-message-intact-after-later-reads")
+		verifapi.Assert(m.Request != nil && m.Request.Method == fmt.Sprint("m", i), "c17.ws-message-intact-after-later-reads")
+	}
+}
